@@ -168,7 +168,10 @@ func newPluginContainer() *PluginContainer {
 
 func (p *PluginContainer) cloneAndAppendMiddle(plugins ...Plugin) *PluginContainer {
 	middle := newPluginSingleContainer()
-	middle.plugins = append(p.middle.GetAll(), plugins...)
+	// the clone must own its list: appending in place would let a later clone
+	// of p (a sibling route or group) overwrite it through the spare capacity
+	all := p.middle.GetAll()
+	middle.plugins = append(all[:len(all):len(all)], plugins...)
 
 	newPluginContainer := newPluginContainer()
 	newPluginContainer.middle = middle
